@@ -353,8 +353,18 @@ def multi_unit(ctx, src):
     FOR = Rule(r'for \(auto& (\w+) : self->get_values_multi\(name\)\) \{',
                r'ArgVec* verif_vals = Arguments_get_values_multi(self, name);\n    for (size_t verif_j = 0; verif_j < verif_vals->size; verif_j++) { ArgText* \1 = &verif_vals->data[verif_j];',
                count=1, regex=True)
-    common = [Rule(r'vector<(\w+)> ret;', '', count=1, regex=True), FOR, Rule('return ret;', 'return;', count=1)]
-    gate = LowerExc([], ['GM_PARSE'], ['Arguments_get_values_multi', 'C17_out_emplace_back', 'C17_out_emplace_back_str'], ret='')
+    # the vector may also be bound to a local first: `auto& X = get_values_multi(name)` is a reference (the same vector), `auto X = ...`
+    # a COPY (C++ deduction drops the reference): a distinct vector object with equal elements (stubs/C17_args.h: C17_argvec_copy)
+    BIND = [Rule(r'\bauto& (\w+) = self->get_values_multi\(name\);', r'ArgVec* \1 = Arguments_get_values_multi(self, name);', count=None, regex=True),
+            Rule(r'\b(?:const )?auto (\w+) = self->get_values_multi\(name\);',
+                 r'ArgVec verif_copy_\1; ArgVec* \1 = &verif_copy_\1; C17_argvec_copy(\1, Arguments_get_values_multi(self, name));', count=None, regex=True),
+            Rule(r'\bret\.reserve\([^;]*\);', '', count=None, regex=True),
+            Rule(r'for \(auto& (\w+) : (\w+)\) \{',
+                 r'ArgVec* verif_vals = \2;\n    for (size_t verif_j = 0; verif_j < verif_vals->size; verif_j++) { ArgText* \1 = &verif_vals->data[verif_j];',
+                 count=None, regex=True)]
+    FOR = Rule(FOR.pat, FOR.rep, count=None, regex=True)
+    common = [Rule(r'vector<(\w+)> ret;', '', count=1, regex=True)] + BIND + [FOR, Rule('return ret;', 'return;', count=1)]
+    gate = LowerExc([], ['GM_PARSE'], ['Arguments_get_values_multi', 'C17_out_emplace_back', 'C17_out_emplace_back_str', 'C17_argvec_copy'], ret='')
     u.raw('#if C17_GM_KIND == 0')
     u.function(src, HH, r'requires\(std::is_same_v<RetT, std::string>\)\s*std::vector<RetT> get_multi\(const std::string& name\)', scope=ARGS,
                new_header='void GM_NAME(Arguments* self, C17_outvec* ret, const vstr* name)',
